@@ -169,6 +169,14 @@ CHECKS["C14"] = dict(
     note="Trusted: the item scanner (asserted to reproduce the source byte-exactly, else exit 2), sha1 of output files. Hash-seed independence is a repeated trial (3-12 fresh processes), not an "
          "enumeration. Swapping two impl blocks of the same type (which reorders methods) is outside the statement and excluded.")
 
+CHECKS["C15"] = dict(
+    category="exploration", design="§2 C15",
+    technique="bounded-exhaustive enumeration of accepted programs (single-focus shapes in 8 positions, lifetime-flow pairs, self forms x callbacks, special-method attributes, struct shapes, render termini) x 7 backends x config variants through the real binary; crashing batches bisected and structurally reduced",
+    text="Every shape of the bridge grammar that the real lowering accepts for a backend is generated by that backend under each config variant (js.abi legacy/spec, Kotlin finalizers, "
+         "lib_name/domain present or missing); the only allowed outcomes are files written or errors through the diagnostics list. Any panic, signal or (reproducible) timeout is a "
+         "violation keyed by backend, panic site, normalised message and reduced shape class.",
+    note="Trusted: exit status / stderr classification of the real binary; acceptance is decided by the tool itself (Lowering error lines), not by a model. 128-bit integers excluded as documented.")
+
 CHECKS["C17"] = dict(
     category="model_checking", design="§2 C17",
     technique="exhaustive enumeration of the configuration lattice (subsets of 3 sources x scoping x spelling x backend) through the real diplomat-tool binary against a reference precedence function",
